@@ -175,6 +175,9 @@ def field_errors(fs, phys, values, where, name, errs, v):
         return
     for ci, chk in enumerate(fs.get("checks", [])):
         ign = chk.get("ignore_na", True)
+        if not ign and phys != "float64" and any(is_null(x) for x in values):
+            # what a comparison with pd.NA / None yields is not documented
+            v.undecided = True
         cells = []
         for i, x in enumerate(values):
             if is_null(x):
